@@ -579,6 +579,11 @@ func run(args []string) error {
 				k = g.edge()
 				kind += "+k-edge"
 			}
+			if kind == "tinyy" && g.r.Bool() {
+				// the result is +-P (or a small multiple): again a point with a tiny ordinate
+				k = []*big.Int{bi(1), add(bigN, -1), bi(2), add(bigN, -2)}[g.r.Intn(4)]
+				kind += "+k=+-1,2"
+			}
 			var out []byte
 			obs := ""
 			if Guard(func() { out = secp256k1.ECDH(b, b32(k)) }) {
